@@ -16,6 +16,7 @@ package main
 //      the real exported verifiers (cred.go).
 
 import (
+	gocrypto "crypto"
 	"encoding/hex"
 	"fmt"
 	"math"
@@ -152,6 +153,18 @@ func (f *fakePK) ProofToHash(m, proof []byte) ([32]byte, error) {
 	f.gotM = append([]byte{}, m...)
 	return f.h, f.err
 }
+
+// fakeSK is a vrf.PrivateKey whose Evaluate returns a chosen hash: drives the exported prover VrfSortition.
+type fakeSK struct {
+	h    [32]byte
+	gotM []byte
+}
+
+func (f *fakeSK) Evaluate(m []byte) ([32]byte, []byte) {
+	f.gotM = append([]byte{}, m...)
+	return f.h, []byte{1}
+}
+func (f *fakeSK) Public() gocrypto.PublicKey { return nil }
 
 func classifyErr(ok bool, err error) string {
 	if err == nil {
@@ -467,6 +480,18 @@ func (h *harness) chooseCase(cc chooseCase, record bool) string {
 				report("oracle", "oracle-verify-seats", fmt.Sprintf("%s: VrfVerifySortition(sub=j-1) accepted", body[0]))
 			}
 		}
+		// the exported prover on the same hash (fake private key returns it): same message, same j
+		func() {
+			defer func() { recover() }()
+			fsk := &fakeSK{h: hashOf(cc.hb)}
+			v, _, jp := ucon.VrfSortition(fsk, seed, idx, role, cc.thr, big.NewInt(cc.stake), cc.total)
+			if v != hashOf(cc.hb) || (j < 1<<32 && int64(jp) != j) {
+				report("oracle", "oracle-prover-recompute", fmt.Sprintf("%s: VrfSortition returns j=%d, choose gives %d", body[0], jp, j))
+			}
+			if string(fsk.gotM) != string(ucon.MakeM(seed, role, idx)) {
+				report("oracle", "oracle-verify-message", fmt.Sprintf("%s: prover's VRF message differs from MakeM(seed, role, index)", body[0]))
+			}
+		}()
 		if string(pk.gotM) != string(ucon.MakeM(seed, role, idx)) {
 			report("oracle", "oracle-verify-message", fmt.Sprintf("%s: verifier's VRF message differs from MakeM(seed, role, index)", body[0]))
 		}
@@ -777,20 +802,18 @@ func genHash(r *vh.RNG, stake int64, p float64) (*big.Int, string) {
 
 // genDoubleRounding: a (threshold, total) pair whose quotient is sensitive to the way p is rounded (the 64-bit big.Float
 // quotient lies on a float64 midpoint, so rounding once to 53 bits gives the neighbouring double), a stake with mean
-// around 40, and a hash sitting exactly on a lower-tail CDF step, where F(k) moves by several ulps when p moves by one:
+// around 30-90, and a hash sitting exactly on a lower-tail CDF step, where F(k) moves by several ulps when p moves by one:
 // pins the derivation of p inside the exported VrfVerifySortition / VrfVerifyPriority.
 func genDoubleRounding(r *vh.RNG) (chooseCase, bool) {
 	for try := 0; try < 60000; try++ {
-		thr := uint64(r.Range(1, 6000))
-		total := int64(thr) * int64(r.Range(4, 200000)) / int64(r.Range(1, 7))
-		if total < int64(thr) {
-			continue
-		}
+		// p in (0.25, 1): below that, gonum's own 1-P swallows the last bits of p and they cannot influence j at all
+		thr := r.U64()>>uint(r.Range(14, 43)) + 1
+		total := int64(thr) + int64(r.U64()%(3*thr))
 		p := goP(thr, big.NewInt(total))
-		if p == float64(thr)/float64(total) || p <= 0 || p >= 0.5 {
+		if p == float64(thr)/float64(total) || p <= 0.25 || p >= 0.97 {
 			continue
 		}
-		stake := int64(float64(r.Range(30, 60)) / p)
+		stake := int64(float64(r.Range(30, 90)) / p)
 		if stake < 1 || stake > 10000000 {
 			continue
 		}
